@@ -70,6 +70,12 @@ struct Case {
     steps: Vec<Step>,
     /// a second arrival order of the same events (clause `interleaving-independent`)
     steps2: Option<Vec<Step>>,
+    /// sub-second part of the window in milliseconds (the window is `w` s + this; timestamps are
+    /// whole seconds, so it never changes which pairs are "no further apart than the window")
+    w_frac_ms: u32,
+    /// added to every timestamp (instants in the upper half of the u64 range); only used without
+    /// watermark updates
+    base: u64,
     /// event ids are per-entity ids reused across timestamps (`L0`, `L1`, `L0`, ...); the harness
     /// tells events apart by `metadata.sequence`
     reuse_ids: bool,
@@ -117,6 +123,8 @@ impl Case {
             "right": self.right.iter().map(ev_json).collect::<Vec<_>>(),
             "steps": self.steps.iter().map(step_str).collect::<Vec<_>>(),
             "event_ids_reused_across_timestamps": self.reuse_ids,
+            "window_sub_second_part_ms": self.w_frac_ms,
+            "timestamp_base": self.base.to_string(),
         });
         if let Some(s2) = &self.steps2 {
             j["steps2"] = json!(s2.iter().map(step_str).collect::<Vec<_>>());
@@ -147,6 +155,8 @@ impl Case {
                 _ => None,
             },
             reuse_ids: j.get("event_ids_reused_across_timestamps").and_then(|v| v.as_bool()).unwrap_or(false),
+            w_frac_ms: j.get("window_sub_second_part_ms").and_then(|v| v.as_u64()).unwrap_or(0) as u32,
+            base: j.get("timestamp_base").and_then(|v| v.as_str()).and_then(|s| s.parse().ok()).unwrap_or(0),
         })
     }
     /// every L(i)/R(i) refers to an existing event and occurs at most once
@@ -179,7 +189,7 @@ fn v_of(e: &StreamEvent) -> i64 {
     }
 }
 
-fn make_event(side: char, idx: usize, e: &Ev, reuse_ids: bool) -> StreamEvent {
+fn make_event(side: char, idx: usize, e: &Ev, reuse_ids: bool, base: u64) -> StreamEvent {
     let mut data = HashMap::new();
     if let Some(k) = e.key {
         data.insert("k".to_string(), Value::String(format!("k{}", k)));
@@ -190,7 +200,7 @@ fn make_event(side: char, idx: usize, e: &Ev, reuse_ids: bool) -> StreamEvent {
         event_type: "T".to_string(),
         data,
         metadata: EventMetadata {
-            timestamp: e.ts,
+            timestamp: base.wrapping_add(e.ts),
             source: if side == 'L' { "left" } else { "right" }.to_string(),
             sequence: idx as u64,
             tags: HashMap::new(),
@@ -198,12 +208,12 @@ fn make_event(side: char, idx: usize, e: &Ev, reuse_ids: bool) -> StreamEvent {
     }
 }
 
-fn make_node(w: u64, cond: Cond) -> StreamJoinNode {
+fn make_node(w: u64, frac_ms: u32, cond: Cond) -> StreamJoinNode {
     StreamJoinNode::new(
         "left".to_string(),
         "right".to_string(),
         JoinType::Inner,
-        JoinStrategy::TimeWindow { duration: Duration::from_secs(w) },
+        JoinStrategy::TimeWindow { duration: Duration::from_secs(w).saturating_add(Duration::from_millis(frac_ms as u64)) },
         Box::new(key_of),
         Box::new(key_of),
         match cond {
@@ -243,7 +253,7 @@ enum Driver {
 
 impl Driver {
     fn new(c: &Case) -> Driver {
-        let node = make_node(c.w, c.cond);
+        let node = make_node(c.w, c.w_frac_ms, c.cond);
         match c.mode {
             Mode::Node => Driver::Node(Box::new(node)),
             Mode::Manager => {
@@ -376,8 +386,8 @@ fn run_steps(c: &Case, steps: &[Step]) -> Run {
     let mut run = Run::default();
     for (si, s) in steps.iter().enumerate() {
         let out = match s {
-            Step::L(i) => d.arrive(true, make_event('L', *i, &c.left[*i], c.reuse_ids)),
-            Step::R(i) => d.arrive(false, make_event('R', *i, &c.right[*i], c.reuse_ids)),
+            Step::L(i) => d.arrive(true, make_event('L', *i, &c.left[*i], c.reuse_ids, c.base)),
+            Step::R(i) => d.arrive(false, make_event('R', *i, &c.right[*i], c.reuse_ids, c.base)),
             Step::W(w) => {
                 let before = d.buffered();
                 let o = d.watermark(*w);
@@ -509,7 +519,7 @@ fn check_run(c: &Case, steps: &[Step], run: &Run) -> (Vec<Disc>, Info, BTreeSet<
             );
             continue;
         };
-        if li >= c.left.len() || ri >= c.right.len() || c.left[li].ts != *lts || c.right[ri].ts != *rts {
+        if li >= c.left.len() || ri >= c.right.len() || c.base.wrapping_add(c.left[li].ts) != *lts || c.base.wrapping_add(c.right[ri].ts) != *rts {
             push_disc(
                 &mut out,
                 "subset-of-reference",
@@ -949,7 +959,8 @@ fn explore_pair(base: &Case, rng: &mut Rng, st: &mut Stats, wm_variants: usize) 
                 }
             }
         }
-        for v in 0..wm_variants {
+        // (watermarks are i64 in the API: with instants in the upper half of u64 their meaning is not stated)
+        for v in 0..(if base.base != 0 { 0 } else { wm_variants }) {
             let plan = match v {
                 0 => WmPlan::Track(*rng.pick(&[0i64, 0, 1, 2])),
                 _ => WmPlan::Random(1 + rng.below(3), ts_hi + (base.w.min(50) as i64) + 2),
@@ -987,6 +998,8 @@ fn random_pair(rng: &mut Rng) -> Case {
         steps: vec![],
         steps2: None,
         reuse_ids: rng.chance(1, 5),
+        w_frac_ms: if rng.chance(1, 6) { *rng.pick(&[1u32, 250, 500, 999]) } else { 0 },
+        base: if rng.chance(1, 20) { *rng.pick(&[(1u64 << 63) - 3, 1u64 << 63, (1u64 << 63) + 123_456, u64::MAX - 50]) } else { 0 },
     }
 }
 
@@ -1016,7 +1029,7 @@ impl Check for C14 {
         "C14"
     }
     fn rule(&self) -> String {
-        "A 'pair' is (left sequence, right sequence, window w in whole seconds, join condition, driver = StreamJoinNode directly, through StreamJoinManager, or (1/8 of the random pairs) through a StreamJoinManager that also holds sibling joins sharing the left and/or right stream which are unregistered before or during the run, 5 such histories). For EVERY pair ALL merges of the two arrival orders are run (C(n+m,n), 70 for 4+4): once without watermark updates (emitted multiset must equal the reference join exactly; emitted sets are also compared directly between merges) and with watermark updates between arrivals (no duplicates, subset of the reference, a missing pair only if its first-arrived side was eligible for eviction at an update before the partner arrived). EXHAUSTIVE part: every pair of sequences of <=2+2 events over the stated small event domain x w in {0,1,2} x both conditions x all merges x {no watermark update; ONE update at every gap with every value 0..=ts_max+w+1}. RANDOM part: sequences of 0..=4 + 0..=4 events, 1..=3 keys, 1/6 of the events without key, in 1/5 of the pairs event ids are per-entity ids reused across timestamps, timestamps 0..=6 (or 0..=3), w in {0,1,2,5} (one pair in 30: u64::MAX, 2^63 or i64::MAX seconds, an unbounded window), condition true or l.v<=r.v; watermark variants per merge: 'track' (after every arrival update_watermark(max ts seen - lag), lag in {0,1,2}) and 1..=3 random non-decreasing updates at random gaps. A pair is non-trivial when its reference join is non-empty AND (some same-key pair is excluded by window/condition OR some event has no key); distinct by (w, condition, both sequences).".into()
+        "A 'pair' is (left sequence, right sequence, window w in whole seconds, join condition, driver = StreamJoinNode directly, through StreamJoinManager, or (1/8 of the random pairs) through a StreamJoinManager that also holds sibling joins sharing the left and/or right stream which are unregistered before or during the run, 5 such histories). For EVERY pair ALL merges of the two arrival orders are run (C(n+m,n), 70 for 4+4): once without watermark updates (emitted multiset must equal the reference join exactly; emitted sets are also compared directly between merges) and with watermark updates between arrivals (no duplicates, subset of the reference, a missing pair only if its first-arrived side was eligible for eviction at an update before the partner arrived). EXHAUSTIVE part: every pair of sequences of <=2+2 events over the stated small event domain x w in {0,1,2} x both conditions x all merges x {no watermark update; ONE update at every gap with every value 0..=ts_max+w+1}. RANDOM part: sequences of 0..=4 + 0..=4 events, 1..=3 keys, 1/6 of the events without key, in 1/5 of the pairs event ids are per-entity ids reused across timestamps, in 1/6 the window has a sub-second part (1..999 ms on top of the whole seconds; timestamps are whole seconds), in 1/20 every timestamp is shifted into the upper half of the u64 range (those pairs run without watermark updates), timestamps 0..=6 (or 0..=3), w in {0,1,2,5} (one pair in 30: u64::MAX, 2^63 or i64::MAX seconds, an unbounded window), condition true or l.v<=r.v; watermark variants per merge: 'track' (after every arrival update_watermark(max ts seen - lag), lag in {0,1,2}) and 1..=3 random non-decreasing updates at random gaps. A pair is non-trivial when its reference join is non-empty AND (some same-key pair is excluded by window/condition OR some event has no key); distinct by (w, condition, both sequences).".into()
     }
     fn assumptions(&self) -> Vec<String> {
         vec![
@@ -1072,6 +1085,8 @@ impl Check for C14 {
                             steps: vec![],
                             steps2: None,
                             reuse_ids: false,
+                            w_frac_ms: 0,
+                            base: 0,
                         };
                         st.count("pairs_of_sequences");
                         st.count("pairs_of_sequences_exhaustive");
